@@ -2,6 +2,7 @@ SPECIFICATION MCSpec
 CONSTANTS
   MC_Ns = {1, 2}
   MC_Topos <- ToposSmall
+  MC_MaxFail = 1
   Defect_HandoffLost = FALSE
   YieldTransparent = FALSE
   KeepHist = TRUE
